@@ -41,10 +41,11 @@
 (*                SafeStripped, CallImpliesPermission, EffectImpliesFlag,  *)
 (*                SafeNeverWrites, BlockedHashRedeployed                   *)
 (*   the binding  ModelStep (an event the abstract machine has no step     *)
-(*                for), TableStored, BlockConfirms: the history is not     *)
-(*                judged; TableInTx, TableCache, LoadedManifest,           *)
-(*                BlockedList: reported as drift, the history stays judged *)
-(*                (a stale table is exactly what makes these clauses fail) *)
+(*                for), BlockConfirms: nothing is judged from the start of *)
+(*                that transaction on; TableStored, TableCache: nothing is *)
+(*                judged AFTER that block; TableInTx, LoadedManifest,      *)
+(*                BlockedList: reported as drift (a stale table is exactly *)
+(*                what makes these clauses fail)                           *)
 (* Total and deterministic: every line is consumed, nothing blocks.        *)
 (***************************************************************************)
 EXTENDS TraceIO, FlagsDyn, SequencesExt
